@@ -14,6 +14,7 @@ import (
 	"github.com/oasisprotocol/curve25519-voi/primitives/ed25519"
 	"github.com/oasisprotocol/curve25519-voi/primitives/ed25519/extra/cache"
 	"github.com/oasisprotocol/curve25519-voi/zzverif/disturb"
+	"github.com/oasisprotocol/curve25519-voi/zzverif/entropy"
 	"github.com/oasisprotocol/curve25519-voi/zzverif/gen"
 	"github.com/oasisprotocol/curve25519-voi/zzverif/mon"
 	"github.com/oasisprotocol/curve25519-voi/zzverif/ref"
@@ -433,7 +434,16 @@ func cacheProgram(r *mon.Run, c Case) {
 	r.HistN("cache/observed-puts", int64(rc.puts))
 }
 
+// entropyCase: the entropy-consuming APIs of this property behind differently behaving readers (package entropy).
+func entropyCase(r *mon.Run, c Case) {
+	entropy.Check(r, "C09", r.Rng(c.Stream), func(sig, what string) { r.Violate(sig, what, c) })
+}
+
 func runCase(r *mon.Run, c Case) {
+	if c.Kind == "entropy" {
+		entropyCase(r, c)
+		return
+	}
 	switch c.Kind {
 	case "history":
 		history(r, c)
@@ -486,6 +496,9 @@ func main() {
 	}
 	if r.HistGet("cache/observed-hits") == 0 || r.HistGet("cache/observed-misses") == 0 {
 		r.Inconclusive("cache workload observed no hits or no misses")
+	}
+	for i := 0; i < r.Pick(6, 60); i++ {
+		entropyCase(r, Case{Kind: "entropy", Stream: fmt.Sprintf("c09/entropy/%d", i)})
 	}
 	r.Finish()
 }
